@@ -315,6 +315,19 @@ def run(ctx):
         done.append(d)
         for b in oracle_checks(sp, c, x, y):
             oracle_bad.append((d, b))
+        # the same values in another memory layout: same transform
+        if len(done) % 3 == 0:
+            from vlib import layouts
+            for tag, xv in layouts.variants(x, rng, k=1):
+                try:
+                    yv = np.asarray(call_impl(sp, c, xv))
+                except Exception as e:
+                    oracle_bad.append((d, ("layout-exception:" + tag, "no exception", repr(e), 1.0)))
+                    continue
+                ctx.count("layout:" + tag, key=json.dumps(c, sort_keys=True) + tag, nontrivial=nontriv)
+                e = relerr(y, yv) if yv.shape == y.shape else 1.0
+                if not e <= 10 * tol_of(c["dtype"]):
+                    oracle_bad.append((d, ("layout:" + tag, y, yv, e)))
     # linop FFT/IFFT: adjoint dot test and normal operator, on the shapes/axes of a sub-sample
     nl = 0
     for d in done:
